@@ -81,7 +81,7 @@ ADDED = {
  'C05': "client direct I/O with client pipelining; bursts of 40/150/300 requests written before the server reads; 5/17/33/70 pipelining connections with one held handler; 3..70 connections of which one does not read its responses; empty replies between ordinary ones under client pipelining; high sequence numbers; unlock points",
  'C06': "a server-side stream write that cannot be encoded followed by calls; library / I/O error texts (incl. the text of ErrShutdown) through a Transport with another call outstanding; the equal-name-length history; high sequence numbers; unlock points",
  'C07': "sequences of four frames with complementary present fields, in every order, through one server codec and one client codec per encoder; whole frames written by the real codecs with a body codec that marshals into the given buffer, method names of 0..1000 bytes",
- 'C08': "a refused stream open followed by its data/close frame or a disconnect; the load-balancing client with dying targets and deep stream backlogs, judged for crashes only",
+ 'C08': "a refused stream open followed by its data/close frame or a disconnect; the load-balancing client with dying targets and deep stream backlogs, judged for crashes only; handlers that close their own streams while the client keeps opening streams; unsynchronised concurrent map access (vector clocks over the shim's synchronisation + instrumented map accesses) reported as the runtime's fatal error",
  'C09': "backlogs of 9..130 unread messages after k=0..9 consumed ones, on both sides, with empty messages; two readers on one stream; high sequence numbers; unlock points",
  'C10': "two readers blocked on one stream for every way it ends; 20..300 unread messages on either side when the stream or connection is closed (sibling stream, handlers and threads); Close after a server-side stream write failed to encode; high sequence numbers; unlock points",
  'C11': "the frame-size sweep with 1000-byte buffers (length != capacity of pooled buffers); one *Call reused for several RoundTrips",
